@@ -52,7 +52,7 @@ PROPS["C06"] = dict(
     rule="BFS over operation histories from clean seeds; unit = (seed, first operation); a unit is non-trivial when its start state has a partially used last word or spare words",
     alphabet="push(b) pop set(i,b) i in {0,1,62,63,64,65,127,len/2,len-1} resize(n,b) n in {0,1,63,64,65,129} fill flip reset par_fill par_flip par_reset extend([1,0,1]) to_owned; set through Box, &mut [usize], AtomicBitVec (Vec and Box) set/swap, atomic fill/flip/reset and par_ variants; seeds new/with_value/with_capacity/collect/bit_vec! forms at lengths {0,1,63,64,65,128}",
     bound={"quick": "all histories of <= 4 operations from every seed", "thorough": "all histories of <= 6 operations, lengths also 2,127,129"},
-    oracle="in every state: len, get, Index, iter, (&b).into_iter, iter_ones, iter_zeros, count_ones/zeros, par_count_ones, ==/!= against fresh equal / one-bit-different / different-only-beyond-len / longer vectors, to_owned, AtomicBitVec get/Index/count_ones/par_count_ones/iter, slice-backed reads equal the Vec<bool> model; get/Index/set and atomic get/set/swap/Index at len, len+1, MAX panic and leave the storage unchanged; on every transition: return values equal the model's and storage bits outside the written elements are unchanged",
+    oracle="in every state: In seed states the iterators are also driven through the rest of the Iterator protocol (size_hint at every step, polling after the end, nth(k) / nth twice / skip(k).count() for k around the length and usize::MAX, step_by, count, last) against the slice iterator over the model; len, get, Index, iter, (&b).into_iter, iter_ones, iter_zeros, count_ones/zeros, par_count_ones, ==/!= against fresh equal / one-bit-different / different-only-beyond-len / longer vectors, to_owned, AtomicBitVec get/Index/count_ones/par_count_ones/iter, slice-backed reads equal the Vec<bool> model; get/Index/set and atomic get/set/swap/Index at len, len+1, MAX panic and leave the storage unchanged; on every transition: return values equal the model's and storage bits outside the written elements are unchanged",
     assumptions=STRICT + ["state key = (backing words, len); Vec capacity is the only hidden field and is not observable through the API except via contents"],
     mc_note=MC_NOTE,
 )
@@ -87,7 +87,7 @@ PROPS["C05"] = dict(
     rule="BFS over operation histories, one search per (word type, bit width, seed, first operation); a unit is non-trivial when its start state has a partially used last word, spare words, or an element crossing a word boundary",
     alphabet="push(v) pop set(i,v) resize(n,v) clear extend([v,v']) reset par_reset apply_in_place(x+1 & mask); set through Box, &mut [W], AtomicBitFieldVec (Vec and Box); atomic reset/par_reset; values {0,1,top bit,mask>>1,mask,0101..}; indices {0,1,k-1,k,k+1,len-1}, lengths {0,1,k-1,k,k+1,2k+1}, k = first element crossing a word; rejected: set/get at len,len+1,MAX/2, iter_from(len+1), set/push/resize/set_atomic with mask+1 and MAX; seeds new / new+set(pattern) / with_capacity+push / new_unaligned / with_capacity / from_slice",
     bound={"quick": "all histories of <= 3 operations for W in {u8,u16,usize} x 6 widths each (incl. 0 and W::BITS); all histories of <= 2 operations for u32 (10 widths), u64 (16 widths), u128 (7 widths)", "thorough": "all histories of <= 4 operations; u8 and u16 all widths, u32 10 widths, u64/usize 16 widths, u128 7 widths"},
-    oracle="in every state: len, bit_width, mask, get(i) all i, iter, into_iter, iter_from(j) all j with exact len()/size_hint before every next, forward unchecked iterator from every j, reverse unchecked iterator from every j, ==/!= against fresh equal / one-element-different / other-width / longer / garbage-beyond-len vectors, from_slice into u128 and u8, boxed and slice-backed reads, atomic reads; rejected operations panic and leave raw parts unchanged; on every transition: return value, callback sequence of apply_in_place, footprint on raw words",
+    oracle="in every state: In seed states the iterators are also driven through the rest of the Iterator protocol (size_hint at every step, polling after the end, nth(k) / nth twice / skip(k).count() for k around the length and usize::MAX, step_by, count, last) against the slice iterator over the model; len, bit_width, mask, get(i) all i, iter, into_iter, iter_from(j) all j with exact len()/size_hint before every next, forward unchecked iterator from every j, reverse unchecked iterator from every j, ==/!= against fresh equal / one-element-different / other-width / longer / garbage-beyond-len vectors, from_slice into u128 and u8, boxed and slice-backed reads, atomic reads; rejected operations panic and leave raw parts unchanged; on every transition: return value, callback sequence of apply_in_place, footprint on raw words",
     assumptions=STRICT + ["state key = (backing words, len) per (W, width)"],
     mc_note=MC_NOTE,
 )
@@ -130,7 +130,7 @@ PROPS["C03"] = dict(
     rule=EF_RULE + "; plus every invalid push (out of order, above u, (n+1)-th) after every prefix of every sequence with n <= 3",
     alphabet="builders push / extend / From<slice> / concurrent set in every permutation of indices (n<=4); back-ends plain, EfSeq, EfDict, EfSeqDict, SelectZeroAdapt(SelectAdapt), SelectZeroAdaptConst<2,1>(SelectAdaptConst<2,1>), SelectZeroAdapt(Select9(Rank9)), SelectZeroSmall(SelectSmall(RankSmall<1,9>))",
     bound={"quick": "N=6, M=14, 4-6 values of u; n<=12 in (b); every delivery of an invalid value (push, one-element extend, extend with the valid rest) after every delivery of the valid prefix, all non-monotone slices of <= 4 values over 5 values given to From", "thorough": "N=9, M=17, 6 values of u; n<=40 in (b); all run lengths 1..=200 in (d)"},
-    oracle="the sequence itself: len, get(i) all i, iter/into_iter with exact len() before every next, iter_from(k)/into_iter_from(k) for every k in 0..=n; an invalid push panics and the builder continues as if it had not happened",
+    oracle="the sequence itself: len, get(i) all i, iter/into_iter with exact len() before every next, iter_from(k)/into_iter_from(k) for every k in 0..=n; iter and iter_from through the rest of the Iterator protocol (nth, skip, step_by, count, last, size_hint, polling after the end); an invalid push panics and the builder continues as if it had not happened",
     assumptions=STRICT,
 )
 LEVEL_TEXT["C03"] = "Exhaustive enumeration of all short monotone sequences over a small universe plus boundary (n,u) probes over the whole usize range, on every builder and selection back-end, compared element by element with the input sequence."
